@@ -132,6 +132,11 @@ type Interp struct {
 	sch *sched
 	mus map[string]*muState
 	wgs map[string]*int
+
+	timers     []*timerRec
+	now        int64
+	timerFires int
+	selectAny  bool // vx.SelectAny: a select with several ready cases forks over all of them
 }
 
 type opaqueBlob struct {
@@ -2115,29 +2120,42 @@ func (in *Interp) chanRecv(ch *ChanObj) (Value, bool) {
 func (in *Interp) selectOp(fr *Frame, x *ssa.Select) Value {
 	st := in.st
 	// result tuple: (index int, recvOk bool, r_0 T_0, ... r_n-1 T_n-1) for each recv state
+	caseReady := func(i int) bool {
+		s := x.States[i]
+		ch, _ := in.get(fr, s.Chan).(*ChanObj)
+		if ch == nil {
+			return false
+		}
+		if s.Dir == types.RecvOnly {
+			return len(ch.buf) > 0 || ch.closed
+		}
+		// an unbuffered channel is modelled with one slot when other goroutines exist
+		return ch.closed || (ch.cp == 0 && (in.sch == nil || len(ch.buf) == 0)) || (ch.cp > 0 && len(ch.buf) < ch.cp)
+	}
 	findReady := func() int {
-		for i, s := range x.States {
-			ch, _ := in.get(fr, s.Chan).(*ChanObj)
-			if ch == nil {
-				continue
-			}
-			if s.Dir == types.RecvOnly {
-				if len(ch.buf) > 0 || ch.closed {
-					return i
-				}
-			} else {
-				// an unbuffered channel is modelled with one slot when other goroutines exist
-				if ch.closed || (ch.cp == 0 && (in.sch == nil || len(ch.buf) == 0)) || (ch.cp > 0 && len(ch.buf) < ch.cp) {
-					return i
-				}
+		for i := range x.States {
+			if caseReady(i) {
+				return i
 			}
 		}
 		return -1
 	}
 	ready := findReady()
-	if ready < 0 && x.Blocking && in.sch != nil {
+	if ready < 0 && x.Blocking && (in.sch != nil || len(in.timers) > 0) {
 		in.block(func() bool { return findReady() >= 0 }, "select")
 		ready = findReady()
+	}
+	if ready >= 0 && in.selectAny {
+		// Go picks uniformly among the ready cases: explore each of them
+		var all []int
+		for i := range x.States {
+			if caseReady(i) {
+				all = append(all, i)
+			}
+		}
+		if len(all) > 1 {
+			ready = all[in.choose(len(all))]
+		}
 	}
 	res := Tuple{nil, st.False}
 	for _, s := range x.States {
